@@ -124,8 +124,8 @@ func runC06(r *Run, rng *Rng, thorough bool) {
 	j1, j2 := []byte(jsonOf(d1).Text()), []byte(jsonOf(d2).Text())
 	shB, _ := encoding.SerializeStructToCBOR(extEM, twoValue(rng, 255))
 	shJ, _ := encoding.SerializeStructToJSON(twoValue(rng, 255))
-	cborEntries := []int{0, 1, 3, 4, 7, 9, 11, 13}
-	jsonEntries := []int{2, 5, 6, 8, 10, 12}
+	cborEntries := []int{0, 1, 3, 4, 7, 9, 11, 13, 14, 16}
+	jsonEntries := []int{2, 5, 6, 8, 10, 12, 15}
 	for i := 0; i < 3; i++ {
 		for _, x := range [][]byte{tok1, tok2, c1, c2, shB} {
 			for _, e := range cborEntries {
@@ -325,6 +325,21 @@ func runC06(r *Run, rng *Rng, thorough bool) {
 			tryJSON("deep-nesting/json-member", []byte(`{"i1":`+doc+`}`))
 		}
 	}
+	// (2b) deep nesting where the JSON dispatcher reads it: under a profile member, with the profile unknown, null or
+	// absent (the document is then refused: the refusal must not cost more than the document)
+	for _, dp := range []int{100, 1500, 4000, 9000} {
+		deep := strings.Repeat("[", dp) + strings.Repeat("]", dp)
+		deepObj := strings.Repeat(`{"a":`, dp) + "1" + strings.Repeat("}", dp)
+		for _, doc := range []string{
+			`{"eat-profile":` + deep + `}`, `{"psa-profile":` + deep + `}`, `{"eat-profile":` + deepObj + `}`,
+			`{"eat-profile":"http://example.com/unknown","x":` + deep + `}`, `{"eat-profile":null,"psa-profile":7,"x":` + deepObj + `}`,
+			`{"eat-profile":"http://arm.com/psa/2.0.0","psa-profile":"PSA_IOT_PROFILE_1","x":` + deep + `}`,
+		} {
+			if len(doc) <= 65536 {
+				tryJSON("deep-nesting/json-dispatch", []byte(doc))
+			}
+		}
+	}
 	// (3) large well-formed inputs: many entries / elements / long strings, up to 64 KiB
 	sizes := []int{100, 1000, 2000, 5000, 8000, 16000}
 	if !thorough {
@@ -375,6 +390,54 @@ func runC06(r *Run, rng *Rng, thorough bool) {
 			try("large/many-components", 4, append([]byte{0xa1, 0x19, 0x09, 0x5f}, arr...))
 			try("large/many-components", 1, append([]byte{0xa1, 0x19, 0x09, 0x5f}, arr...))
 			try("large/many-components", 3, append([]byte{0xa1, 0x3a, 0x00, 0x01, 0x24, 0xfd}, arr...))
+		}
+		// an otherwise valid token of each profile whose component array holds n invalid (empty / half-filled)
+		// components, through the validating decoders (CBOR, JSON, inside an envelope): the error report must not grow
+		// faster than the input
+		for pi, base := range []*Node{tokenOf(d1), tokenOf(d2)} {
+			swKey := int64(-75006)
+			if pi == 1 {
+				swKey = 2399
+			}
+			for _, comp := range []*Node{nMap(), nMap([2]*Node{nUint(2), nBstr(fill(32, 1))})} {
+				t := base.clone()
+				var pairs [][2]*Node
+				for _, p := range t.Pairs {
+					if k, ok := keyInt(p[0]); ok && (k == swKey || k == -75007) {
+						continue
+					}
+					pairs = append(pairs, p)
+				}
+				kids := make([]*Node, n)
+				for i := range kids {
+					kids[i] = comp
+				}
+				t.Pairs = append(pairs, [2]*Node{nInt(swKey), nArr(kids...)})
+				b := t.Bytes()
+				if len(b) > 65536 {
+					continue
+				}
+				try("large/many-invalid-components", 14, b)
+				try("large/many-invalid-components", 1, b)
+				prot, _, sig, _ := envelopeParts(tok1)
+				try("large/many-invalid-components", 16, envelope(nBstr(prot), nMap(), nBstr(b), nBstr(sig)))
+			}
+			jd := jsonOf([]*ClaimsDesc{d1, d2}[pi])
+			var mem []JMember
+			for _, m := range jd.Mem {
+				if m.Name != "psa-software-components" && m.Name != "psa-no-software-measurements" {
+					mem = append(mem, m)
+				}
+			}
+			kids := make([]*JTree, n)
+			for i := range kids {
+				kids[i] = jO()
+			}
+			jd2 := &JTree{Kind: jObj, Mem: append(mem, jM("psa-software-components", jA(kids...)))}
+			if txt := []byte(jd2.Text()); len(txt) <= 65536 {
+				try("large/many-invalid-components", 15, txt)
+				try("large/many-invalid-components", 2, txt)
+			}
 		}
 		// one long byte string / text string
 		if n*4 <= 65000 {
@@ -452,8 +515,15 @@ func runC06(r *Run, rng *Rng, thorough bool) {
 }
 
 func entryNames14(e int) string {
-	if e == 13 {
+	switch e {
+	case 13:
 		return "evidence-unmarshal"
+	case 14:
+		return "claims-cbor-validating"
+	case 15:
+		return "claims-json-validating"
+	case 16:
+		return "evidence-validating"
 	}
 	return entryNames[e]
 }
